@@ -473,8 +473,11 @@ def run_r9(chk, F):
         for n in hirq.walk(b["body"]):
             if n[0] != "if" or n[1][0] == "letx":
                 continue
-            cond = strip(n[1])
-            if cond[0] == "un" and cond[1] == "Not":
+            # `!pred(e)` anywhere in the condition (alone, or as a disjunct/conjunct next to further reasons to keep
+            # the separator): the separator is omitted only where the predicate holds
+            for cond in hirq.walk(n[1]):
+                if not (hirq.is_node(cond) and cond[0] == "un" and cond[1] == "Not"):
+                    continue
                 inner = strip(cond[2])
                 if inner[0] == "call" and inner[2][:2] == ["def", "fn"] and inner[2][2] in preds:
                     seps = [strip(m[5][0])[2] for m in hirq.walk(n[2]) if m[0] == "mcall" and m[2] in text_fns
